@@ -482,6 +482,25 @@ func lenTextAlphabet(f *rm.Field, o Opts, leaf int) []member {
 		}
 		out = append(out, member{desc: fmt.Sprintf("len %d", l), v: rm.Text(rolling(leaf, l))})
 	}
+	if o.Big { // every length 3..40 and windows around 128, 256, 512, 1024 plus a few block sizes
+		var ls []int
+		for l := 3; l <= 40; l++ {
+			ls = append(ls, l)
+		}
+		for _, c := range []int{128, 256, 512, 1024} {
+			for l := c - 8; l <= c+8; l++ {
+				if l != 255 && l != 256 && l != 257 {
+					ls = append(ls, l)
+				}
+			}
+		}
+		ls = append(ls, 100, 600, 1000, 4096)
+		for _, l := range ls {
+			if uint64(l) <= max {
+				out = append(out, member{desc: fmt.Sprintf("len %d", l), v: rm.Text(rolling(leaf, l)), heavy: true})
+			}
+		}
+	}
 	if o.Big {
 		if max >= 65535 {
 			out = append(out, member{desc: "len 65535", v: rm.Text(rolling(leaf, 65535)), heavy: true})
@@ -569,6 +588,24 @@ func listAlts(t *rm.Type, f *rm.Field, node *rm.Value, o Opts, leaf int) []alt {
 			continue
 		}
 		ms = append(ms, member{desc: fmt.Sprintf("n=%d", n), v: mk(n), heavy: true})
+	}
+	// a few mid-range lengths (round decimal and binary block sizes): implementations that work in blocks
+	// tend to go wrong exactly at a multiple of their block size
+	// every length 4..64 and a few mid-range / block-size lengths: the encoded size sweeps across the small buffer
+	// capacities and reservation sizes (64, 128, 256, 512 bytes) for every element width, and implementations that
+	// work in blocks go wrong exactly at a multiple of their block size
+	if o.Big {
+		var ns []int
+		for n := 4; n <= 64; n++ {
+			ns = append(ns, n)
+		}
+		ns = append(ns, 100, 127, 128, 129, 1000, 1024, 4096)
+		for _, n := range ns {
+			if uint64(n) > max {
+				continue
+			}
+			ms = append(ms, member{desc: fmt.Sprintf("n=%d", n), v: mk(n), heavy: true})
+		}
 	}
 	if o.Big && max >= 65535 {
 		ms = append(ms, member{desc: "n=65535", v: mk(65535), heavy: true})
@@ -778,4 +815,43 @@ func fieldCount(p *rm.Proto, t *rm.Type, depth int) int {
 		}
 	}
 	return n
+}
+
+// Mixed builds base D with its FIRST length-prefixed text (searching nested parts and list elements) replaced by a
+// 600-byte text, everything else as in D: a long value followed by short ones inside one message. ok=false if
+// the type has no length-prefixed text.
+func Mixed(t *rm.Type) (*rm.Value, bool) {
+	v := Distinct(t)
+	return v, mixFirst(v)
+}
+
+func mixFirst(v *rm.Value) bool {
+	t := v.Type
+	for i := range t.Fields {
+		f := &t.Fields[i]
+		switch f.Kind {
+		case "lentext":
+			if rm.MaxOf(f.Prefix) >= 600 {
+				v.Fields[i] = rm.Text(rolling(i, 600))
+				return true
+			}
+		case "list":
+			if f.Elem.Kind == "lentext" && rm.MaxOf(f.Elem.Prefix) >= 600 && len(v.Fields[i].Elems) > 0 {
+				v.Fields[i].Elems[0] = rm.Text(rolling(i, 600))
+				return true
+			}
+			if f.Elem.Kind == "struct" {
+				for _, e := range v.Fields[i].Elems {
+					if mixFirst(e) {
+						return true
+					}
+				}
+			}
+		case "struct", "dyn":
+			if !v.Fields[i].Nil && mixFirst(v.Fields[i]) {
+				return true
+			}
+		}
+	}
+	return false
 }
